@@ -1509,6 +1509,12 @@ class PEval:
                 return Iter(list(zip(a0.rest(), other)))
             r = self.call_named(path, fname, [a0.rest()] + args[1:], node, depth)
             return Iter(r) if isinstance(r, list) and fname not in ("collect",) else r
+        if fname == "into" and len(args) == 1 and node is None and isinstance(a0, (Struct, Enum)) and not a0.adt.startswith("#") and getattr(self, "_adaptor_t", ""):
+            # `.map(Into::into)`: the target type is the one the adaptor produces; use the crate's `impl From<X> for T`
+            suf = " as core::convert::From<%s>>::from" % a0.adt
+            for k_, f_ in self.lib.fns.items():
+                if k_.endswith(suf) and k_.startswith("<") and k_[1:].split(" as ")[0] in self._adaptor_t and thir.body_of(f_):
+                    return self.call_fn(f_, [a0], depth + 1)
         if fname == "from" and len(args) == 1 and isinstance(a0, bool) and re.search(r"<impl core::convert::From<bool> for [iu](8|16|32|64|128|size)>", path):
             return int(a0)
         if fname in ("into", "from") and len(args) == 1:
